@@ -670,10 +670,11 @@ INSTANCE_KINDS = ("shared", "isolated", "path")
 
 
 def part_a_items(tier):
-    # the heavy groups first (million-row results), so that they do not form the tail of the pool's work
-    items = [("rows",)]
+    # two light groups first (core re-runs the first items in the parent for its determinism proof), then the heavy
+    # ones (million-row results), so that those do not form the tail of the pool's work
+    items = [("kind", "set"), ("kind", "tx"), ("rows",)]
     items += [("sweep", fam, bl, cl) for fam in FRAC_FAMILIES for bl, _ in SWEEP_BASES for cl in ("exact", "inexact")]
-    items += [("kind", k) for k in KIND_STREAMS]
+    items += [("kind", k) for k in KIND_STREAMS if k not in ("set", "tx")]
     items += [("type", ts["sql"]) for ts in M1.TYPES]
     items += [("frac", fam, bl) for fam in FRAC_FAMILIES for bl, _ in FRAC_BASES if tier != "quick" or bl in QUICK_BASES]
     items += [("login", lab) for lab, _, _ in LOGINS]
@@ -1214,6 +1215,7 @@ def run(ctx: core.Ctx):
     # ---- (a) ----
     items = part_a_items(tier)
     res = ctx.pmap(run_group, items, chunk=1)
+    _phase(ctx, "part (a)")
     ctx.extra["part_a_groups"] = len(items)
     ctx.extra["part_a_statements"] = sum(n for _, n in res)
     # ---- (b) ----
@@ -1236,6 +1238,7 @@ def run(ctx: core.Ctx):
                 seen[key] = depth + 1
                 frontier.append((repr(key), hist))
         depth += 1
+        _phase(ctx, f"part (b) depth {depth}")
     for k in seen:
         ctx.acc.add("states", repr(k))
     ctx.acc.counters["max_depth"] = depth
@@ -1256,6 +1259,13 @@ def run(ctx: core.Ctx):
     # exhaustive w.r.t. the stated finite space: all streams, and all histories up to the depth bound modulo state equality
     ctx.exhaustive = True
     ctx.extra["bound"] = f"part (a): all {len(items)} groups; part (b): histories of length <= {depth_bound}, <= {M.MAX_TOKENS} tokens"
+
+
+def _phase(ctx, what):
+    if os.environ.get("VERIF_C17_TIMING"):
+        import sys
+
+        print(f"[C17 timing] {what}: t={time.time() - ctx.t0:.1f}s", file=sys.stderr)
 
 
 def _freeze(x):
